@@ -5,7 +5,7 @@
      opt     = [tag (0 string, 1 option object, 2 lib); id]
      pkgopts = list of [package id; list of opt]
    A concrete library is the number 3 * node + (0 shared, 1 static, 2 whole-archive). *)
-From BFG Require Import Base.Chars Base.Sx Graph.LinkOrder.
+From BFG Require Import Base.Chars Base.Sx Graph.LinkOrder Graph.LinkLangs.
 From Coq Require Import String.
 Local Open Scope N_scope.
 
@@ -66,6 +66,11 @@ Definition table : list (string * (sx -> sx)) := [
   ("ld.links", fun a => let p := nth_sx 0 a in
       sx_bool (p_ld_links (pj_ms p) (pj_mt p) (pj_nodes p) (un_bool (nth_sx 3 a)) (un_libs (nth_sx 1 a))
                           (un_libs (nth_sx 2 a))));
+  (* [languages of the own objects; what each library says about its languages] *)
+  ("link.input_langs", fun a => sx_libs (input_langs (un_libs (nth_sx 0 a)) (map un_libs (un_list (nth_sx 1 a)))));
+  ("link.driver", fun a => sx_opt A (binary_lang (un_libs (nth_sx 0 a)) (map un_libs (un_list (nth_sx 1 a)))));
+  (* [driver language; languages] *)
+  ("link.can_link", fun a => sx_bool (can_link (un_N (nth_sx 0 a)) (un_libs (nth_sx 1 a))));
   ("dedup.first", fun a => sx_libs (dedup_first (un_libs (nth_sx 0 a))));
   ("dedup.last", fun a => sx_libs (dedup_last (un_libs (nth_sx 0 a))));
   (* [libdir components; outdir components] *)
